@@ -4,8 +4,10 @@
    int_scale, _value_lookup_table, _gray_num_*, the numeric cores of _parse_color_* / _color_desc_* /
    _true_to_256 (string lexing abstracted, see Base/ColourBase.v), AttrSpec.colors and the one-line
    flag / number properties.
-   Hand-written here, mirroring the code line by line: AttrSpec.__init__, __set_foreground,
-   __set_background, _foreground_color, foreground, background, get_rgb_values, __eq__, __hash__.
+   Hand-written here, mirroring the code line by line: AttrSpec.__init__ (including the removal of
+   the _HIGH_TRUE_COLOR marker when no true colour is used), __set_foreground, __set_background,
+   _foreground_color, foreground, background, get_rgb_values (basic colours are looked up in
+   _BASIC_COLOR_VALUES at every depth), __eq__, __hash__.
    The packed integer AttrSpec.__value is a Z; Python's unbounded-precision &, |, ~, <<, >> are
    Z.land, Z.lor, Z.lnot, Z.shiftl, Z.shiftr. *)
 From Coq Require Import ZArith List Bool.
